@@ -51,6 +51,7 @@ try:
             t = time.time()
             c = sh(f"./check {pid} --tier {a.tier}", cwd="/verif", env=dict(env, OPACUS_REPO=wt, VERIF_SEED=a.seed))
             lines = [l for l in c.stdout.splitlines() if l.startswith("VIOLATION") or l.startswith("INFRA")]
+            lines.sort(key=lambda l: l.endswith("no-failing-input-found"))   # failing inputs first: only the first 8 lines are kept
             res["checks"][pid] = {"exit": c.returncode, "lines": lines[:8], "wall_s": round(time.time() - t, 1)}
         if a.baseline:
             b = sh(f"/verif/tools/baseline.py {wt}", env=env)
